@@ -196,7 +196,13 @@ class _Dialect(type):
 
         # 1. Try standard sqlglot modules first
         if key in DIALECT_MODULE_NAMES:
-            module = importlib.import_module(f"sqlglot.dialects.{key}")
+            # Take the package's import lock first, like attribute access on sqlglot.dialects
+            # does: acquiring the module lock first and the package lock second (from inside
+            # the module's body) can deadlock against a thread doing it the other way round
+            from sqlglot.dialects import _import_lock
+
+            with _import_lock:
+                module = importlib.import_module(f"sqlglot.dialects.{key}")
             # If module was already imported, the class may not be in _classes
             # Find and register the dialect class from the module
             if key not in cls._classes:
